@@ -4,7 +4,7 @@
 // The package exists only in overlays.
 package zzh
 
-//gosx:file init=github.com/free5gc/chf/cdr/asn,github.com/free5gc/chf/zzh
+//gosx:file init=github.com/free5gc/chf/cdr/asn,github.com/free5gc/chf/zzref,github.com/free5gc/chf/zzh
 
 import (
 	"reflect"
@@ -168,6 +168,9 @@ func zzFill(v reflect.Value, path string, depth int, pol zzPolicy) {
 		case "Value", "List":
 			zzFill(v.Field(0), path, depth, pol)
 		case "Present":
+			if t.NumField() < 2 {
+				return // CHOICE without alternatives (open type placeholder): not encodable
+			}
 			alt := 1
 			if depth == 0 {
 				alt = 1 + vx.Choice(path+".alt", t.NumField()-1)
